@@ -338,9 +338,14 @@ func newC16Instance(kind string, cfg *configuration.Configuration) *c16Instance 
 		rec := ev.NewRecorder()
 		r := ce.NewRules(rec, cfg)
 		in.rules = &rulesHandle{
+			// the receiver given to NewRules stays attached for the life of the instance (Reset is documented
+			// to prepare the validator for the next document, not to detach it); what it recorded is handed
+			// over to `out` after every document
 			play: func(evs []ev.Event, out *ev.Recorder) (int, error) {
-				r.SetNextReceiver(out)
-				return ev.Play(evs, r)
+				rec.Events = nil
+				idx, err := ev.Play(evs, r)
+				out.Events = append(out.Events, rec.Events...)
+				return idx, err
 			},
 			rst: r.Reset,
 		}
